@@ -32,6 +32,11 @@ def run(ctx):
         ham, terms, e0, wk = made[:4]
         w = C01.make_wfn(ctx, "single", norb, rng)
         w.normalize()
+        # the propagators are linear: the input need not have norm one, and the result has the norm of the input
+        nscale = rng.choice([1.0, 1.0, 2.5, complex(0.2, -0.1), 1e-3])
+        if nscale != 1.0:
+            w.scale(nscale)
+            ctx.count("input-norm-not-one")
         dets = U.wfn_dets(w)
         if len(dets) > 40:
             continue
@@ -124,7 +129,7 @@ def run(ctx):
         got = vec_of(out, dets)
         want = expm(-1j * t * H) @ psi
         dist = float(numpy.abs(got - want).max())
-        rounding = 1e-13 * math.exp(min(x, 50.0)) * max(1.0, k)
+        rounding = 1e-13 * math.exp(min(x, 50.0)) * max(1.0, k) * max(1.0, abs(nscale))
         desc.update({"break_order": k, "distance": dist})
         if dist > accuracy + rounding:
             if algo == "taylor" and x <= (k + 1) / 2:
